@@ -107,10 +107,12 @@ fn gen_generate_valid_inner_value_with_validators<T: ToTokens>(
     let basic_value = generate_basic_value(inner_type, basic_value_kind);
     let boundaries = compute_boundaries(validators);
 
+    let is_finite = validator_kinds.contains(&FloatValidatorKind::Finite);
     Ok(normalize_basic_value_for_boundaries(
         inner_type,
         basic_value,
         boundaries,
+        is_finite,
     ))
 }
 
@@ -118,6 +120,7 @@ fn normalize_basic_value_for_boundaries(
     inner_type: &FloatInnerType,
     basic_value: TokenStream,
     boundaries: Boundaries,
+    is_finite: bool,
 ) -> TokenStream {
     match (boundaries.lower, boundaries.upper) {
         (Some(lower), Some(upper)) => {
@@ -132,9 +135,18 @@ fn normalize_basic_value_for_boundaries(
             quote! {
                 let from0to1 = #arbitrary_in_01_range;
 
-                // Scale range [0; 1] to the range of the boundaries
-                let range = (#upper_value - #lower_value).abs();
-                let x = #lower_value + from0to1 * range;
+                // Scale range [0; 1] to the range of the boundaries.
+                // A convex combination is used, because `upper - lower` may overflow.
+                let x = (#lower_value) * (1.0 - from0to1) + (#upper_value) * from0to1;
+
+                // Rounding may leave the range by a tiny bit, so clamp it back
+                let x = if x < (#lower_value) {
+                    #lower_value
+                } else if x > (#upper_value) {
+                    #upper_value
+                } else {
+                    x
+                };
 
                 // Make sure we satisfy the exclusive boundaries
                 let x = #adjust_x_lower;
@@ -145,22 +157,34 @@ fn normalize_basic_value_for_boundaries(
         (Some(lower), None) => {
             let lower_value = &lower.value;
             let adjust_x = gen_adjust_x_for_lower_boundary(inner_type, &lower);
+            let keep_finite = if is_finite {
+                quote! { let x = if x.is_finite() { x } else { #inner_type::MAX }; }
+            } else {
+                quote! {}
+            };
             quote! {
                 // Compute initial basic value
                 let basic_value = #basic_value;
                 let positive_basic_value = basic_value.abs();
-                let x = positive_basic_value + #lower_value;
+                let x = positive_basic_value + (#lower_value);
+                #keep_finite
                 #adjust_x
             }
         }
         (None, Some(upper)) => {
             let upper_value = &upper.value;
             let adjust_x = gen_adjust_x_for_upper_boundary(inner_type, &upper);
+            let keep_finite = if is_finite {
+                quote! { let x = if x.is_finite() { x } else { #inner_type::MIN }; }
+            } else {
+                quote! {}
+            };
             quote! {
                 // Compute initial basic value
                 let basic_value = #basic_value;
                 let negative_basic_value = -basic_value.abs();
-                let x = negative_basic_value + #upper_value;
+                let x = negative_basic_value + (#upper_value);
+                #keep_finite
                 #adjust_x
             }
         }
@@ -176,10 +200,18 @@ fn gen_adjust_x_for_upper_boundary(
         quote! { x }
     } else {
         let upper_value = &upper_boundary.value;
-        let correction_delta = correction_delta_for_float_type(float_type);
+        // A fixed correction delta does not work: it is absorbed when the boundary is large.
+        // Step to the closest float below the boundary instead.
         quote! {
-            if x >= #upper_value {
-                x - #correction_delta
+            if x >= (#upper_value) {
+                let boundary: #float_type = #upper_value;
+                if boundary == 0.0 {
+                    -#float_type::from_bits(1)
+                } else if boundary > 0.0 {
+                    #float_type::from_bits(boundary.to_bits() - 1)
+                } else {
+                    #float_type::from_bits(boundary.to_bits() + 1)
+                }
             } else {
                 x
             }
@@ -195,31 +227,21 @@ fn gen_adjust_x_for_lower_boundary(
         quote! { x }
     } else {
         let lower_value = &lower_boundary.value;
-        let correction_delta = correction_delta_for_float_type(float_type);
+        // Step to the closest float above the boundary to satisfy the exclusive lower boundary.
         quote! {
-            if x <= #lower_value {
-                // Since there is no upper boundary, we are free to add any positive value here
-                // to adjust so we can satisfy the exclusive lower boundary.
-                x + #correction_delta
+            if x <= (#lower_value) {
+                let boundary: #float_type = #lower_value;
+                if boundary == 0.0 {
+                    #float_type::from_bits(1)
+                } else if boundary > 0.0 {
+                    #float_type::from_bits(boundary.to_bits() + 1)
+                } else {
+                    #float_type::from_bits(boundary.to_bits() - 1)
+                }
             } else {
                 x
             }
         }
-    }
-}
-
-/// A tiny value that is used to correct the value to satisfy the exclusive boundaries if
-/// necessary.
-/// For example, if the constraint is `greater = 0.0`, then and we obtain exactly `0.0` when
-/// generating a pseudo-random value, then we need to add a tiny value to it to make it
-/// satisfy `x > 0.0` check.
-///
-/// Unfortunately things like `f32::EPSILON` or `f64::EPSILON` are not suitable for this purpose.
-/// The constants are found experimentally.
-fn correction_delta_for_float_type(float_type: &FloatInnerType) -> TokenStream {
-    match float_type {
-        FloatInnerType::F32 => quote!(0.000_002),
-        FloatInnerType::F64 => quote!(0.000_000_000_000_004),
     }
 }
 
